@@ -32,7 +32,7 @@ pub fn def() -> CheckDef {
         runs_quick: 100_000,
         runs_thorough: 2_000_000,
         rule: "(a) Debug/AlgorithmName text of every public type compared between two instances with different key, IV and history and along one instance's history; (b) drop injected after every prefix of a sampled history (block modes x12, byte-stream aliases x8, cores x8, buffered CFB x2 over the harness cipher, block sizes >= 8), followed by a scan of the object's storage for 8-byte windows of the IV, the exported state, its image under E and the next keystream blocks; positive control: the same scenarios on a build without the zeroize features must leave residue for every type. evaluations = scenarios; drop points counted in reach_probes.drop_points. distinct = distinct (part, type, block size, cipher, history shape); non-trivial = history of >= 1 data operation",
-        required_probes: &["drop_points", "live_state_seen", "debug_compared", "drop_mid_block", "drop_after_seek", "debug_at_keystream_end"],
+        required_probes: &["drop_points", "live_state_seen", "debug_compared", "drop_mid_block", "drop_after_seek", "debug_at_keystream_end", "drop_far_position"],
         r#gen,
         exec,
         components: "real code: Debug, AlgorithmName and Drop/zeroize implementations of the nine crates and of cipher's StreamCipherCoreWrapper; stub: block cipher (SimCipher: 16 bytes, alignment 1, so that no object has 8 or more padding bytes); scanner: harness-side read of the slot after drop_in_place; cts has neither Debug nor a zeroize feature (vacuous there)",
@@ -59,9 +59,13 @@ fn r#gen(rng: &mut Rng, thorough: bool) -> Scn {
     let w = s.pol[0].max_width() as u64;
     for _ in 0..1 + rng.usize(if thorough { 7 } else { 5 }) {
         let op = if fam == FAM_STREAM && mode != "ofb" && rng.chance(1, 5) {
-            Op::new("seek").p(rng.below(7 * bs as u64) as u128)
+            let lim = super::c04::flavor_of(mode).map(super::c04::limit_blocks).unwrap_or(u128::MAX);
+            let far = (rng.next() as u128 >> rng.below(40)) % (lim.min(u64::MAX as u128 / bs as u128) - (1 << 16)) * bs as u128;
+            Op::new("seek").p(if rng.chance(2, 3) { rng.below(7 * bs as u64) as u128 } else { far + rng.below(bs as u64) as u128 })
         } else if fam == FAM_CORE && mode != "ofb" && rng.chance(1, 6) {
-            Op::new("setpos").p(rng.below(1 << 20) as u128)
+            // sometimes far away, so that the block counter itself is a high-entropy value
+            let lim = super::c04::flavor_of(mode).map(super::c04::limit_blocks).unwrap_or(u128::MAX);
+            Op::new("setpos").p(if rng.chance(1, 2) { rng.below(1 << 20) as u128 } else { (rng.u128() >> rng.below(64)) % (lim - (1 << 16)) })
         } else {
             gen_data_op(rng, fam, mode, bs, w)
         };
@@ -148,15 +152,25 @@ fn replay(scn: &Scn, fam: u8, key: &[u8], iv: &[u8], tag: u8, p: usize, ctx: Opt
 
 /// (text without the wrapper's buffer_data field, the buffer_data field)
 fn split_debug(t: &str) -> (String, String) {
-    if let Some(i) = t.find("buffer_data: [") {
-        if let Some(j) = t[i..].find(']') {
-            let mut rest = t[..i].to_string();
-            rest.push_str("buffer_data: [..]");
-            rest.push_str(&t[i + j + 1..]);
-            return (rest, t[i..i + j + 1].to_string());
+    // the text holds the compact and the pretty form: strip every buffer_data list
+    let mut rest = String::new();
+    let mut bufs = String::new();
+    let mut cur = t;
+    while let Some(i) = cur.find("buffer_data: [") {
+        match cur[i..].find(']') {
+            Some(j) => {
+                rest.push_str(&cur[..i]);
+                rest.push_str("buffer_data: [..]");
+                // normalise whitespace so that compact and pretty lists compare alike
+                bufs.push_str(&cur[i..i + j + 1].split_whitespace().collect::<String>());
+                bufs.push(';');
+                cur = &cur[i + j + 1..];
+            }
+            None => break,
         }
     }
-    (t.to_string(), String::new())
+    rest.push_str(cur);
+    (rest, bufs)
 }
 
 fn exec(scn: &Scn, ctx: &mut Ctx) -> Verdict {
@@ -245,6 +259,19 @@ fn exec(scn: &Scn, ctx: &mut Ctx) -> Verdict {
         // secrets
         let mut wins: Vec<[u8; 8]> = Vec::new();
         windows(&scn.iv, &mut wins);
+        for blk in scn.iv.chunks(bs) {
+            // CFB and BelT-CTR keep E(IV), not the IV
+            if blk.len() == bs {
+                let mut e = blk.to_vec();
+                prim_enc(scn.cipher, &scn.key, &mut e);
+                windows(&e, &mut wins);
+            }
+        }
+        if let Some(p) = inst.block_pos() {
+            // the block counter is state too (property: "IV, nonce, counter and feedback state")
+            windows(&p.to_le_bytes(), &mut wins);
+            ctx.probe_if(p > u32::MAX as u128, "drop_far_position");
+        }
         let exp = inst.export();
         let exp_bytes = match &exp {
             Some(Exp::Iv(v)) => v.clone(),
